@@ -50,13 +50,40 @@ var (
 )
 
 var nameAlphabet = []string{"alice", "Bob", "user-1", "a b", "per%cent", "sl/ash", "ünï", "system:admin", "x:y", "UP", "q?x=1", "a,b", "system:anonymous"}
-var groupAlphabet = []string{"dev", "system:masters", "Ops Team", "g%2F", "système", "system:authenticated", "system:unauthenticated", "a/b"}
+// "Ops", "Team" next to "Ops Team", "dev", "ops" next to "dev ops": identities that differ only in where the element
+// boundaries fall (a rendering that joins elements with blanks cannot tell them apart); the gateway process lives across
+// cases, so anything it memoises per identity is hit by such twins
+var groupAlphabet = []string{"dev", "system:masters", "Ops Team", "Ops", "Team", "ops", "dev ops", "g%2F", "système", "system:authenticated", "system:unauthenticated", "a/b", "[dev", "ops]"}
 // keys with a literal '%' followed by two hex digits matter: the upstream percent-decodes the header name, so the
 // gateway has to escape the '%' itself
 var extraKeys = []string{"scopes", "Scopes", "acme.io/team", "k%y", "k y", "UPPER", "x", "acme.io%2fteam", "50%25", "%41b", "x/y%2fz", "a%2Fb"}
-var extraVals = []string{"v1", "V 2", "a%b", "é", "view,edit"}
+var extraVals = []string{"v1", "V 2", "V", "2", "a%b", "é", "view,edit", "view", "edit", "view edit"}
+
+// twins: identities of one user that differ only in where the boundaries between groups / extra values fall
+var twins = []gwbox.Identity{
+	{Name: "alice", Groups: []string{"dev", "ops"}},
+	{Name: "alice", Groups: []string{"dev ops"}},
+	{Name: "alice", Groups: []string{"Ops", "Team", "dev"}},
+	{Name: "alice", Groups: []string{"Ops Team", "dev"}},
+	{Name: "alice", Groups: []string{"Ops", "Team dev"}},
+	{Name: "Bob", Extra: map[string][]string{"scopes": {"view", "edit"}}},
+	{Name: "Bob", Extra: map[string][]string{"scopes": {"view edit"}}},
+	{Name: "Bob", Groups: []string{"dev"}, Extra: map[string][]string{"scopes": {"V", "2"}}},
+	{Name: "Bob", Groups: []string{"dev"}, Extra: map[string][]string{"scopes": {"V 2"}}},
+}
 
 func genIdentity(t *rapid.T) gwbox.Identity {
+	if rapid.IntRange(0, 9).Draw(t, "id.twin") == 0 {
+		tw := rapid.SampledFrom(twins).Draw(t, "id.twinOf")
+		id := gwbox.Identity{Name: tw.Name, Groups: append([]string{}, tw.Groups...)}
+		for k, v := range tw.Extra {
+			if id.Extra == nil {
+				id.Extra = map[string][]string{}
+			}
+			id.Extra[k] = append([]string{}, v...)
+		}
+		return id
+	}
 	id := gwbox.Identity{Name: rapid.SampledFrom(nameAlphabet[:12]).Draw(t, "id.name")}
 	id.Groups = rapid.SliceOfN(rapid.SampledFrom(groupAlphabet), 0, 4).Draw(t, "id.groups")
 	n := rapid.IntRange(0, 3).Draw(t, "id.nextra")
@@ -208,7 +235,7 @@ func lowerKeys(m map[string][]string) map[string][]string {
 var implied = map[string]bool{"system:authenticated": true, "system:unauthenticated": true, "system:serviceaccounts": true}
 
 func TestPropIdentityPropagation(t *testing.T) {
-	sub := stats.NewSub("identity-propagation", "rapid: authenticated identity (name, 0-4 groups, 0-3 extra keys x 1-2 values with %, /, blanks, UTF-8, upper case, literal %XX sequences), client header set (Authorization valid / second value / other scheme / unknown token / none; Impersonate-User 0-2 values incl. empty first value and service-account form; Impersonate-Group 0-3; Impersonate-Extra-<key> escaped or raw; other Impersonate-* names) written in lower / upper / mixed case on a real HTTP/1.1 connection, one request in five as an upgrade (exec style) request, one in eight right after the endpoint's transport was rebuilt (what the gateway does when health probes hang), and a deny set for the authorizer; oracle: reference impersonation semantics decide 401 / >=400 malformed / 403 / forwarded, and for forwarded requests the identity the stub upstream decodes == the effective identity, Authorization == exactly the gateway credential, no Impersonate-* header other than those generated from the effective identity; non-trivial = the client sent an identity-bearing header other than one valid Authorization, or the identity has extras / non-alphanumeric bytes; distinct by FNV-64 of (identity, headers, deny set)")
+	sub := stats.NewSub("identity-propagation", "rapid: authenticated identity (one time in ten from a family of twins that differ only in where the boundaries between groups / extra values fall - the gateway process lives across cases; otherwise name, 0-4 groups, 0-3 extra keys x 1-2 values with %, /, blanks, UTF-8, upper case, literal %XX sequences), client header set (Authorization valid / second value / other scheme / unknown token / none; Impersonate-User 0-2 values incl. empty first value and service-account form; Impersonate-Group 0-3; Impersonate-Extra-<key> escaped or raw; other Impersonate-* names) written in lower / upper / mixed case on a real HTTP/1.1 connection, one request in five as an upgrade (exec style) request, one in eight right after the endpoint's transport was rebuilt (what the gateway does when health probes hang), and a deny set for the authorizer; oracle: reference impersonation semantics decide 401 / >=400 malformed / 403 / forwarded, and for forwarded requests the identity the stub upstream decodes == the effective identity, Authorization == exactly the gateway credential, no Impersonate-* header other than those generated from the effective identity; non-trivial = the client sent an identity-bearing header other than one valid Authorization, or the identity has extras / non-alphanumeric bytes; distinct by FNV-64 of (identity, headers, deny set)")
 	stats.Check(t, stats.N(8000, 60000), func(t *rapid.T) {
 		id := genIdentity(t)
 		cr := genClientHeaders(t)
